@@ -43,6 +43,7 @@ type httpSim struct {
 	timeoutS  int // time-out of the program under test: silence lasts longer than that
 }
 
+var statusAttrRe = regexp.MustCompile(`status\s*=\s*['"]success['"]`)
 var keyRe = regexp.MustCompile(`key=[^&]*&`)
 var passRe = regexp.MustCompile(`password=[^&]*`)
 
@@ -143,6 +144,39 @@ func (h *httpSim) handle(w http.ResponseWriter, r *http.Request) {
 					conn.Close()
 				}
 			}
+			return
+		case "rej_unauth":
+			w.Write([]byte(`<response status="unauth" code="22"><msg>Session timed out</msg></response>`))
+			return
+		case "rej_failure":
+			w.Write([]byte(`<response status="failure" code="403"/>`))
+			return
+		case "rej_nostatus":
+			w.Write([]byte(`<response code="17"><msg><line>operation refused</line></msg></response>`))
+			return
+		case "rej_word":
+			w.Write([]byte(`<response status="busy" code="9"><result><msg>try again later</msg></result></response>`))
+			return
+		case "rej_error_nomsg":
+			w.Write([]byte(`<response status="error" code="7"/>`))
+			return
+		case "rej_case":
+			// the conforming reply, only the status word in another letter case
+			rec := httptest.NewRecorder()
+			h.panos(rec, r, q)
+			body := statusAttrRe.ReplaceAllString(rec.Body.String(), `status="SUCCESS"`)
+			w.WriteHeader(rec.Code)
+			w.Write([]byte(body))
+			return
+		case "json_error_200":
+			// NSX: status 200 and a well-formed JSON error document
+			w.Header().Set("content-type", "application/json")
+			w.Write([]byte(`{"httpStatus":"BAD_REQUEST","error_code":500012,"module_name":"policy","error_message":"The request was rejected."}`))
+			return
+		case "rej_4xx":
+			w.Header().Set("content-type", "application/json")
+			w.WriteHeader([]int{400, 401, 403, 404, 409, 412, 429, 502}[idx%8])
+			w.Write([]byte(`{"httpStatus":"ERROR","error_code":500090,"module_name":"policy","error_message":"The request was rejected."}`))
 			return
 		case "status_nobody":
 			// an error status and nothing else (a proxy or an overloaded management plane)
